@@ -21,8 +21,9 @@ def expected_states(ncol):
 
 
 def model_run(ctx):
-    # vacuity: the named actions of the model are all taken (small configuration; -coverage builds a cost model of every
-    # invariant, which is not feasible for the bignum theorems - those are guarded by the state count and ASSUME Witnesses)
+    # vacuity: the named actions of the model are all taken. -coverage builds a cost model of every invariant and runs out
+    # of memory on the bignum theorems, so this run (MC_Ops_cov.cfg) carries the machine invariant only; that every case
+    # of the theorem grid is reached is guarded by the state count below and by ASSUME Witnesses in MC_Ops.tla
     r = tlc_mc(ctx, "MC_Ops", cfg="MC_Ops_cov.cfg", tag="ops_model_cov", workers=2, xmx="2g")
     zero = coverage_zero_actions(r.out_path, {"Ops", "MC_Ops"})
     if zero:
